@@ -135,7 +135,8 @@ def tlc_method(method, pnames):
             elif op == "acall":
                 calls.append({"op": op, "lhs": c["lhs"], "f": c["f"], "args": c["args"], "kw": c["kw"]})
             elif op == "yield":
-                calls.append({"op": op, "e": c["e"], "time": c["time"], "tid": c["tid"], "comp": c["comp"]})
+                calls.append({"op": op, "e": c["e"], "time": c["time"], "tid": c["tid"], "comp": c["comp"],
+                              "slots": ["<ret_state>" + c["comp"], "<ret_time>" + c["comp"], "<ret_time_id>" + c["comp"]]})
             elif op == "if":
                 calls.append({"op": op, "c": c["c"]})
             elif op == "switch":
